@@ -77,7 +77,7 @@ def strategy(tier):
 
 
 def budget(tier):
-    return 3000 if tier == "quick" else 150000
+    return 3000 if tier == "quick" else 100000
 
 
 def classify(case):
